@@ -213,7 +213,12 @@ Section Models.
     Qed.
 
     (** Theorem 3c: [accuracy] = rel_res(A^H W' A x + D x, b) is the relative residual of
-        system (1) *)
+        system (1).  [Cs x] is the APPLICATION of D = sum_i rho_i C_i^H C_i to x, for both
+        representations the code keeps: a 1-D D (all C_i diagonal) acts as [D * x], a 2-D D
+        (MatrixOperator C_i) as [D @ x] (solver.py accuracy(), since fix 25e555b; before it
+        the 2-D case used the element-wise product and reported O(1) for an exact solution --
+        the stream "all C_i MatrixOperator, check_solve=True" of vf/props/C10.py keeps checking
+        the reported number against the exact relative residual). *)
     Definition rel_res (ax b : EX) : R := norm (vsub b ax) / norm b.
     Definition matrix_accuracy_model (x : EX) : R :=
       rel_res (vadd (dAH d (Wscaled (dA d x))) (Cs x)) (compute_rhs_model (Some d) bs).
